@@ -34,7 +34,10 @@ type sstate struct {
 	c1, c2 []byte
 }
 
-func chunk(seed []byte, k byte) []byte { h := sha256.Sum256(append(append([]byte{}, seed...), k)); return h[:] }
+func chunk(seed []byte, k byte) []byte {
+	h := sha256.Sum256(append(append([]byte{}, seed...), k))
+	return h[:]
+}
 func ackOf(c1, c2 []byte) []byte {
 	h := sha256.Sum256(append(append([]byte("ack"), c1...), c2...))
 	return h[:]
